@@ -63,7 +63,7 @@ func cloneModel(s idset) idset {
 }
 
 func TestPropSeriesIDSet(t *testing.T) {
-	rec.Check(t, 4000, 80000, func(t *rapid.T) {
+	rec.Check(t, 8000, 80000, func(t *rapid.T) {
 		const nSlots = 3
 		sets := make([]*tsdb.SeriesIDSet, nSlots)
 		models := make([]idset, nSlots)
@@ -410,7 +410,7 @@ func TestPropSeriesIDSet(t *testing.T) {
 			rec.Class("idset:binary-op-or-roundtrip-across-containers")
 			h := strings.Join(hist, " ")
 			rec.NonTrivial("idset|" + h)
-			if rec.WantSample() && len(h) < 400 {
+			if len(h) < 400 && wantSample("idset") {
 				rec.Sample(map[string]any{"structure": "tsdb.SeriesIDSet", "history": h})
 			}
 		} else {
